@@ -55,7 +55,7 @@ BB +BB 1 0.35 4000
 [ link ]
 resname "A|B"
 [ bonds ]
-BB {"resname": "A"} +BB {"resname": "B"} 1 0.37 4400 {"comment": "mixed"}
+BB {"resname": "A"} +BB {"resname": "B"} 1 0.37 4400 {"comment": "mixed", "ifdef": "SOFT_JUNCTION"}
 [ link ]
 resname "A|B"
 [ bonds ]
